@@ -713,3 +713,7 @@ pub mod testing {
         registry
     }
 }
+
+#[cfg(all(aws_s2n_quic_verif, any(test, all(kani, feature = "testing"))))]
+#[path = "/verif/harness/transport/peer_id.rs"]
+mod verif;
